@@ -35,7 +35,7 @@ class OtherLic(object):
 
 
 def pool(le, rng):
-    keys = ['mit', 'MIT', 'gpl', 'gpl 2.0', 'a', 'b', 'a WITH b', 'a with b', 'x', 'İ', 'a b']
+    keys = ['mit', 'MIT', 'gpl', 'gpl 2.0', 'a', 'b', 'a WITH b', 'a with b', 'x', 'İ', 'a b', 'GPL', 'GPL 2', 'GPL 3', 'GPL+']
     syms = []
     for k in keys:
         for ex in (False, True):
